@@ -561,7 +561,11 @@ def _check(engine, prop, tier, seed, jobs, args, t0, early_stop=True):
     if harness_unconfirmed:
         for oracle, path, out in harness_unconfirmed:
             print('unconfirmed candidate oracle=%s replay=%s\n%s' % (oracle, path, out))
-        raise HarnessError('a candidate violation did not reproduce in a fresh interpreter')
+        if not reported:
+            raise HarnessError('a candidate violation did not reproduce in a fresh interpreter')
+        # another candidate of this batch was confirmed and reported: that verdict stands; the unconfirmed one
+        # (behaviour that depends on more than the case, e.g. on object addresses) is only noted
+        print('note: %d further candidate(s) did not reproduce in a fresh interpreter' % len(harness_unconfirmed))
     if reported:
         return 1
     if reach_missing:
